@@ -175,8 +175,16 @@ def nodeform_failures(sk, g, stale):
                     bad.append(f'node_exists given {what} is False for node {a!r}')
                 if sorted(sk.get_neighbors(x)) != want_nb:
                     bad.append(f'get_neighbors given {what} differs from get_neighbors({a!r})')
-                if sorted(m.identifier for m in sk.get_neighbor_nodes(x)) != want_nb:
+                nbn = sk.get_neighbor_nodes(x)
+                if sorted(m.identifier for m in nbn) != want_nb:
                     bad.append(f'get_neighbor_nodes given {what} differs from get_neighbors({a!r})')
+                for m in nbn:
+                    o2 = gnodes.get(m.identifier)
+                    if o2 is not None and (m.variable_type != o2.variable_type or impl.cj(m.meta) != impl.cj(o2.meta)
+                                           or type(m) is not type(o2)):
+                        bad.append(f'get_neighbor_nodes({a!r}) returns node {m.identifier!r} without the variable type / '
+                                   f'metadata / class of the graph node')
+                        break
             except Exception as e:  # noqa: BLE001
                 bad.append(f'a skeleton reader given {what} raised {type(e).__name__}')
     for e in list(g.edges)[:4]:
